@@ -10,7 +10,23 @@ def main():
     a = ap.parse_args()
     tier = a.tier if a.tier in ("quick", "thorough") else "quick"
     seed = int(os.environ.get("VERIF_SEED", "20260930"))
-    mod = importlib.import_module("props." + a.prop.lower())
-    sys.exit(core.run_check(mod, a.prop.upper(), tier, seed, a.replay))
+    pid = a.prop.upper()
+    try:
+        mod = importlib.import_module("props." + a.prop.lower())
+        rc = core.run_check(mod, pid, tier, seed, a.replay)
+    except SystemExit:
+        raise
+    except BaseException:  # noqa: BLE001  -- fail closed: a crash of the machinery means the property is no longer shown to hold
+        import json, traceback
+        tb = traceback.format_exc()
+        root = os.path.dirname(os.path.dirname(os.path.abspath(__file__)))
+        os.makedirs(os.path.join(root, "replays"), exist_ok=True)
+        path = os.path.join(root, "replays", f"{pid}-harness-crash.json")
+        json.dump({"property": pid, "kind": "no-failing-input-found", "no_longer_checks": "the check itself raised before reaching a verdict",
+                   "traceback": tb, "seed": seed, "tier": tier}, open(path, "w"), indent=1)
+        sys.stderr.write(tb)
+        print(f"VIOLATION property={pid} replay={path} no-failing-input-found")
+        rc = 1
+    sys.exit(rc)
 
 main()
